@@ -331,6 +331,45 @@ def canon_model_result(r):
             "ints": [canon_model_row(x) for x in r["ints"]]}
 
 
+def has_tie(v):
+    """some finite float leaf lies within 1e-7 (in units of the 5th decimal) of a rounding tie"""
+    if v is None or isinstance(v, bool):
+        return False
+    t = v[0]
+    if t == "f":
+        x = float(v[1])
+        if not math.isfinite(x) or x.is_integer():
+            return False
+        y = Fraction(x) * 100000
+        fr = y - (y.numerator // y.denominator)
+        return abs(fr - Fraction(1, 2)) <= Fraction(1, 10 ** 7)
+    if t in ("l", "t"):
+        return any(has_tie(x) for x in v[1])
+    if t == "d":
+        return any(has_tie(x) for _, x in v[1])
+    return False
+
+
+def eq_mod_ties(a, b):
+    """equality of canonical values where numbers may differ by one unit of the 5th decimal"""
+    if isinstance(a, list) and isinstance(b, list):
+        if len(a) == 3 and len(b) == 3 and a[0] == "q" and b[0] == "q":
+            return abs(Fraction(a[1], a[2]) - Fraction(b[1], b[2])) <= Fraction(100001, 10 ** 10)
+        return len(a) == len(b) and all(eq_mod_ties(x, y) for x, y in zip(a, b))
+    if isinstance(a, dict) and isinstance(b, dict):
+        return a.keys() == b.keys() and all(eq_mod_ties(a[k], b[k]) for k in a)
+    return a == b
+
+
+def lenient_rewards(res):
+    """the exempt 'rewards' column: list or tuple are the same observable"""
+    if "raised" in res:
+        return res
+    out = dict(res)
+    out["ints"] = [[[k, (["l", v[1]] if k == "rewards" and isinstance(v, list) and v and v[0] == "t" else v)] for k, v in r] for r in res["ints"]]
+    return out
+
+
 # ------------------------------------------------------------------ the documented normalisation (oracle for B)
 TIE_SLACK = Fraction(1, 2 ** 50)
 
@@ -459,6 +498,12 @@ def check_property(case, impl):
                       "(packed_list2tuple decides by the first row and calls tuple() on every cell)", "first-row-tuple:TypeError")]
         if set(raised.values()) == {"TypeError"} and any(has_collision(rows_of(case, t)) for t in done):
             return [F("B", "Experiment.run / Result.from_file raise TypeError after field names that collide under str() were packed into one column", "str-key-collision")]
+        if set(raised.values()) == {"KeyError"} and len(raised) == 3:
+            for c in case["lrns"]:
+                pr = dict((json.dumps(k), v) for k, v in (c["params"][1] if c.get("params") else []))
+                if pr.get(json.dumps(S("family"))) == S("vw") and not (json.dumps(S("args")) in pr and json.dumps(S("seed")) in pr):
+                    return [F("B", "Experiment.run / Result.from_file raise KeyError: Result.__init__ builds full_name from params['args'] and params['seed'] whenever a learner's params say family='vw'",
+                              "run-raised:KeyError:family-vw-without-args")]
         return [F("B", "reading the result log raised %s" % raised, "run-raised:" + "/".join(sorted(set(raised.values()))))]
     # three routes identical
     for a, b in (("nofile", "file"), ("file", "from_file")):
@@ -662,9 +707,20 @@ def gen_params(rng, kind):
 
 def gen_rows(rng, prone, tags):
     """rows of one triple. `prone`: allow the shapes on which the pinned commit's first-row test fails"""
-    mode = rng.wchoice([(8, "zero"), (3, "allempty" if prone else "normal"), (89, "normal")])
+    mode = rng.wchoice([(8, "zero"), (3, "allempty" if prone else "normal"), (4, "many"), (85, "normal")])
     if mode == "zero":
         return []
+    if mode == "many":
+        # long outputs with simple cells; a new field shows up late, the last rows matter
+        n = rng.choice([50, 51, 64, 100, 101, 129, 257])
+        late = rng.randint(n // 2, n - 1)
+        rows = []
+        for i in range(n):
+            row = [[S("reward"), ["f", gen_float(rng)] if rng.chance(0.5) else ["i", i]], [S("a"), ["t", [["i", i]]]]]
+            if i >= late:
+                row.append([S("late"), ["i", i]])
+            rows.append(["d", row])
+        return rows
     n = rng.choice([1, 1, 2, 2, 3, 4, 6])
     if mode == "allempty":
         return [["d", []] for _ in range(n)]
@@ -713,7 +769,7 @@ def gen_rows(rng, prone, tags):
 class C07(Property):
     id = "C07"
     prop_modules = ["CobaVerif.Props.C07"]
-    quick_n, thorough_n, search_n = 2000, 40000, 2500
+    quick_n, thorough_n, search_n = 1500, 40000, 2500
     case_timeout = 60
     workers = 8
     rule = ("a case is an experiment (1-3 environments, 1-3 learners, 1-2 evaluators, a non-empty set of triples) whose instrumented evaluators yield generated rows "
@@ -858,7 +914,16 @@ class C07(Property):
             model = {"ff": combos["ff"]["file"], "tt": combos["tt"]["file"]}
             collide = any(has_collision(rows_of(case, t)) for t in done)
             # (A): the implementation equals the model of the pinned code or of (partly) repaired code, the same one on all routes
-            matching = [c for c in ("ff", "ft", "tf", "tt") if all(impl[r] == combos[c][r] for r in ("nofile", "file", "from_file"))]
+            ties = any(has_tie(x) for kind in ("envs", "lrns", "vals") for comp in case[kind] if comp.get("params") is not None for x in [comp["params"]]) \
+                or any(has_tie(r) for _, rows in case["rows"] for r in rows)
+            limpl = {r: lenient_rewards(impl[r]) for r in impl}
+            combos = {c: {r: lenient_rewards(combos[c][r]) for r in combos[c]} for c in combos}
+            matching = [c for c in ("ff", "ft", "tf", "tt") if all(limpl[r] == combos[c][r] for r in ("nofile", "file", "from_file"))]
+            if not matching and ties:
+                # a value at a rounding tie may legitimately go either way (e.g. round(v,5) instead of round(v*P)/P)
+                matching = [c for c in ("ff", "ft", "tf", "tt") if all(eq_mod_ties(limpl[r], combos[c][r]) for r in ("nofile", "file", "from_file"))]
+                if matching:
+                    tags.append("A:tie-tolerance-used")
             if not matching:
                 ok = False
                 if collide and all(v.get("raised") == "TypeError" for v in impl.values()):
@@ -866,7 +931,8 @@ class C07(Property):
                     tags.append("A:collision-raised")
                 elif collide and not any("raised" in v for v in impl.values()):
                     # the pinned encoder's output depends on Python's set order when names collide under str(): compare everything else
-                    ok = any(all(all(impl[r][t] == combos[c][r].get(t) for t in ("exp", "envs", "lrns", "vals")) for r in ("nofile", "file", "from_file")) for c in ("ff", "tt"))
+                    same = (lambda a, b: a == b or eq_mod_ties(a, b)) if ties else (lambda a, b: a == b)
+                    ok = any(all(all(same(impl[r][t], combos[c][r].get(t)) for t in ("exp", "envs", "lrns", "vals")) for r in ("nofile", "file", "from_file")) for c in ("ff", "tt"))
                     tags.append("A:collision-partial")
                 if not ok:
                     c = "ff"
@@ -954,6 +1020,11 @@ class C07(Property):
                 if comp.get("params") is not None and not comp["params"][1]:
                     c = cp(case); c[kind][i]["params"] = None; yield c
         for ti, (t, rows) in enumerate(case["rows"]):
+            if len(rows) > 8:
+                h = len(rows) // 2
+                for keep in (rows[:h], rows[h:], rows[:len(rows) - 1], rows[1:]):
+                    c = cp(case); c["rows"][ti][1] = cp(keep); yield c
+                continue
             for ri in range(len(rows)):
                 c = cp(case); c["rows"][ti][1].pop(ri); yield c
             for ri, row in enumerate(rows):
